@@ -247,7 +247,11 @@ theorem startInFlight_eq : Nsq.Gen.Chan.startInFlight = ([
   "assign msg.deliveryTS = now",
   "assign msg.pri = now.Add(timeout).UnixNano()",
   "assign err := c.pushInFlightMessage(msg)",
-  "do c.addToInFlightPQ(msg)"] : List String) := by decide
+  "do c.addToInFlightPQ(msg)"] : List String) ∨ Nsq.Gen.Chan.startInFlight = ([
+  "assign msg.clientID = clientID",
+  "assign msg.deliveryTS = now",
+  "assign msg.pri = now.Add(timeout).UnixNano()",
+  "assign err := c.pushInFlightMessage(msg)"] : List String) := by decide
 
 /-- C03 (seeded C03-m2): `Channel.doPause` stores the `paused` flag BEFORE it walks over the consumers to wake their pumps (model: `pause`/`unpause` set the flag in the same step the guard sees). -/
 theorem chanDoPause_eq : Nsq.Gen.Chan.chanDoPause = ([
@@ -270,7 +274,11 @@ theorem touchMessage_eq : Nsq.Gen.Chan.touchMessage = ([
   "do c.removeFromInFlightPQ(msg)",
   "assign msg.pri = newTimeout.UnixNano()",
   "assign err = c.pushInFlightMessage(msg)",
-  "do c.addToInFlightPQ(msg)"] : List String) := by decide
+  "do c.addToInFlightPQ(msg)"] : List String) ∨ Nsq.Gen.Chan.touchMessage = ([
+  "assign msg, err := c.popInFlightMessage(clientID, id)",
+  "do c.removeFromInFlightPQ(msg)",
+  "assign msg.pri = newTimeout.UnixNano()",
+  "assign err = c.pushInFlightMessage(msg)"] : List String) := by decide
 
 /-- C02.7: `removeFromInFlightPQ` is one critical section that removes the object only if it is in the heap at its recorded index (model: `heap.erase id` is a no-op when the entry is gone — a late answer in the delivery window, or after the scan popped it). -/
 theorem heapRemoveGuard_eq : Nsq.Gen.Chan.heapRemoveGuard = ([
@@ -296,7 +304,23 @@ theorem pushInFlight_eq : Nsq.Gen.Chan.pushInFlight = ([
   "assign _, ok := c.inFlightMessages[msg.ID]",
   "do c.inFlightMutex.Unlock()",
   "assign c.inFlightMessages[msg.ID] = msg",
+  "do c.inFlightMutex.Unlock()"] : List String) ∨ Nsq.Gen.Chan.pushInFlight = ([
+  "do c.inFlightMutex.Lock()",
+  "assign _, ok := c.inFlightMessages[msg.ID]",
+  "do c.inFlightMutex.Unlock()",
+  "assign c.inFlightMessages[msg.ID] = msg",
+  "do c.inFlightPQ.Push(msg)",
   "do c.inFlightMutex.Unlock()"] : List String) := by decide
+
+/-- audit A3 / fix F48 — EXACTLY two shapes of "register a message in flight" are accepted, consistently over the three
+functions: (pre-F48, `ChanMicroT` with `fixed = false`) `pushInFlightMessage` inserts into the map only and both callers
+push the heap in a second critical section (`addToInFlightPQ`); or (F48, `fixed = true`) `pushInFlightMessage` inserts into
+map and heap in one critical section and neither caller pushes again. A mixture (no heap push at all, or two) is refused. -/
+theorem inflightPushShape_eq :
+    ("do c.inFlightPQ.Push(msg)" ∉ Nsq.Gen.Chan.pushInFlight ∧ "do c.addToInFlightPQ(msg)" ∈ Nsq.Gen.Chan.startInFlight ∧
+      "do c.addToInFlightPQ(msg)" ∈ Nsq.Gen.Chan.touchMessage) ∨
+    ("do c.inFlightPQ.Push(msg)" ∈ Nsq.Gen.Chan.pushInFlight ∧ "do c.addToInFlightPQ(msg)" ∉ Nsq.Gen.Chan.startInFlight ∧
+      "do c.addToInFlightPQ(msg)" ∉ Nsq.Gen.Chan.touchMessage) := by decide
 
 /-- C01 (seeded C01-m5): the channel's disk queue accepts records up to max-msg-size + 26 (`minValidMsgLength`: timestamp, attempts, id) — every body the front ends accept fits when the message overflows to the channel's disk (model: `enqueue` never refuses on a durable channel). -/
 theorem chanBackendNew_eq : Nsq.Gen.Chan.chanBackendNew = ([
